@@ -335,15 +335,16 @@ func (ci *crdIpam) Shutdown() {
 // ConfigurePool init floatingIP pool.
 // #lizard forgives
 func (ci *crdIpam) ConfigurePool(floatIPs []*FloatingIPPool) error {
-	defer func() {
-		glog.Infof("Configure pool done, %d fip pool, %d unallocated, %d allocated", len(ci.FloatingIPs),
-			len(ci.unallocatedFIPs), len(ci.allocatedFIPs))
-	}()
 	sort.Sort(FloatingIPSlice(floatIPs))
 	// hold the lock while listing: an allocation or release that commits between the list and the swap of
 	// the tables below would otherwise be lost from (or resurrected in) the cache
 	ci.cacheLock.Lock()
 	defer ci.cacheLock.Unlock()
+	// deferred after the unlock above, i.e. runs before it: the tables are read under the lock
+	defer func() {
+		glog.Infof("Configure pool done, %d fip pool, %d unallocated, %d allocated", len(ci.FloatingIPs),
+			len(ci.unallocatedFIPs), len(ci.allocatedFIPs))
+	}()
 	ips, err := ci.listFloatingIPs()
 	if err != nil {
 		glog.Errorf("fail to list floatIP %v", err)
